@@ -109,6 +109,14 @@ def handle (d : DState) (line : String) : DState × String :=
     | some c, some fl, some subs =>
       ({ d with units := d.units ++ [(c, fl != 0, subs)] }, s!"u{d.units.length}")
     | _, _, _ => (d, "bad-op")
+  | ["setflag", u, fl] => match nat? u, nat? fl with
+    -- unit state the unit-dependent factories look at changes BETWEEN solves (`Env` is rebuilt for every solve:
+    -- the factories are asked again, nothing of an earlier solve's answers is kept)
+    | some u, some fl =>
+      (match d.units[u]? with
+       | some (c, _, subs) => ({ d with units := d.units.set u (c, fl != 0, subs) }, "ok")
+       | none => (d, "bad-op"))
+    | _, _ => (d, "bad-op")
   | ["newprof"] =>
     let (h, o) := d.rs.heap.alloc []
     ({ d with rs := { d.rs with heap := h }, named := d.named ++ [o] }, s!"#{o}")
